@@ -182,7 +182,7 @@ fn batcher_order(sc: &Scenario, rr: &RunResult) -> Vec<Violation> {
     for (si, st) in sc.steps.iter().enumerate() {
         // boundaries on which every data element goes to exactly one link of the producer
         let positions: &[&str] = match st {
-            Step::Un(_, UnOp::Shuffle) | Step::Un(_, UnOp::Repl(_)) | Step::Un(_, UnOp::Win(..)) => &["pre"],
+            Step::Un(_, UnOp::Shuffle) | Step::Un(_, UnOp::Repl(_)) | Step::Un(_, UnOp::Win(..)) | Step::Un(_, UnOp::Extra(ExtraOp::KeyedChain(..))) => &["pre"],
             Step::Un(_, UnOp::Gb(f, _)) if matches!(f, GbForm::Fold | GbForm::Reduce | GbForm::RichCounter | GbForm::KeyedMap) => &["pre"],
             Step::Bin(_, _, BinOp::Merge) | Step::Bin(_, _, BinOp::Zip) => &["preL", "preR"],
             _ => continue,
@@ -991,7 +991,7 @@ pub fn c03(sc: &Scenario, rr: &RunResult) -> Vec<Violation> {
                     }
                 }
             }
-            Step::Un(_, UnOp::Gb(..)) | Step::Un(_, UnOp::Win(..)) => {
+            Step::Un(_, UnOp::Gb(..)) | Step::Un(_, UnOp::Win(..)) | Step::Un(_, UnOp::Extra(ExtraOp::KeyedChain(..))) => {
                 let (Some(p), Some(q)) = (find("pre"), find("start")) else { continue };
                 // key -> replica must be a function, across all producers
                 let mut key_at: BTreeMap<u16, BTreeSet<CoordT>> = BTreeMap::new();
